@@ -61,7 +61,7 @@ CHECKS["C06"] = dict(
     category="fault_enumeration",
     technique="Hypothesis-generated pipelines x injected fault kind x node index x detail level x output mode; stream-grammar, registry-schema and cross-record invariant oracle; differential against the untraced run (exception identity); /proc/self/fd probe",
     text=("Fault injection by generation (9.6k cases quick, 56k thorough): a pre-built exception object (ValueError, RuntimeError, "
-          "KeyboardInterrupt, BaseException subclass) is raised at a generated node, or a construction error is planted at a generated "
+          "KeyboardInterrupt, BaseException subclass, message-less / tuple-args / SystemExit objects) is raised at a generated node or by a processor constructor, an unusual but legal value (non-finite float, mixed-key dict, bytes, numpy array, lone surrogate ...) is planted among the traced parameters, or a construction error (unknown parameter incl. non-string names, probe without key) is planted at a generated "
           "node, on top of the generator's own unresolved-parameter / type-gate / undeclared-write failures. Every emitted line is "
           "schema-validated via the registry; the stream grammar, shared ids, node order, upstream lists, statuses, pipeline_end "
           "status, exception identity and file closure are checked independently."),
@@ -98,7 +98,7 @@ CHECKS["C04"] = dict(
 CHECKS["C05"] = dict(
     technique="Hypothesis-generated configurations x exhaustive single-point semantic mutation operators at every applicable position; metamorphic inequality oracle on semantic ID, config ID and the affected node's UUID / node semantic ID; UUID distinctness invariant",
     text=("Generated-input search (1.3k configs, ~28k (config, mutation) pairs quick; 12k configs thorough). Every identity-bearing field "
-          "named by the property has its own mutation operator (20 operators), applied wherever it applies; a mutation that leaves "
+          "named by the property has its own mutation operator (45 operators, incl. one-ulp / whitespace / case / list-order changes of parameter values, sequence element / order / type changes, and AST-level changes of sweep expressions: operands of non-commutative operators and chained comparisons, conditional branches), applied wherever it applies; a mutation that leaves "
           "semantic ID or config ID or the affected node's identity unchanged is a violation."),
     note="Trusts the mutation guard (type-strict inequality of the configuration modulo +/* commutation).",
     design="DESIGN.md section 4 C05")
@@ -118,17 +118,17 @@ CHECKS["C13"] = dict(
     text=("Crash-point enumeration over real traces (2.4k traces quick -> ~50k (trace, cut) and (trace, order) evaluations; 51k traces "
           "thorough): every prefix of every emitted trace is aggregated and compared with a 30-line reference verdict (status, missing "
           "edge named, missing nodes, no orphans, launch roll-ups); every drawn order of every drawn subset must give the verdict of "
-          "the same set in emission order; finalising twice must change nothing; one long-lived aggregator fed the same prefix incrementally and finalised after every step must agree with a fresh one."),
+          "the same set in emission order, also when fed to a long-lived aggregator finalised after every record and when handed over as list / generator / iterator / one by one; retried launches (one id, attempts 1 and 2) are aggregated together; finalising twice must change nothing."),
     note="Trusts the reference verdict function and the reconstruction of directory-mode emission order (sequential single-process writer).",
     design="DESIGN.md section 4 C13")
 
 CHECKS["C14"] = dict(
     category="model_checking",
     technique="harness-owned deterministic thread scheduler over the real transport code (sys.settrace line events + cooperative-lock shim); stateless DFS enumeration of all schedules of tiny scenarios up to a preemption bound; Hypothesis-generated choice lists for larger scenarios; multiset / per-channel order / pattern oracle",
-    text=("Systematic schedule exploration of the implementation itself (no abstract model): every interleaving of 5 tiny scenarios at "
+    text=("Systematic schedule exploration of the implementation itself (no abstract model): every interleaving of 10 tiny scenarios (incl. a consumer that leaves after one message, a subscription closed by another thread, character-class and overlapping-star patterns) at "
           "line granularity of in_memory.py is enumerated exhaustively up to 2 preemptions (quick; 3 thorough; one less for the 3-thread "
           "and 4-message scenarios), ~2.3k schedules quick, plus 6.6k (quick) / 135k (thorough) generated schedules of larger scenarios "
-          "with 2-3 publishers, 1-2 exact/wildcard subscribers and existing / new channels. Every schedule is replayable from its choice list."),
+          "with 2-3 publishers, 1-2 exact/wildcard subscribers and existing / new channels; after every schedule a sequential epilogue drains each pattern with a fresh subscription, then '*', so that 'delivered to a matching subscription' is decided per pattern. Every schedule is replayable from its choice list."),
     note="Granularity limit: one module, line events, one runnable thread at a time; races inside a single line or inside C code of deque/dict are out of reach. The module's threading name is shimmed.",
     design="DESIGN.md section 4 C14")
 
